@@ -154,6 +154,14 @@ def build_witnesses(tier: str) -> List[Witness]:
     W.append(_mk("two_defaults", "two default variants", "EnumString",
                  enum_for("EnumString", "    #[strum(default)]\n    Alpha(String),\n    #[strum(default)]\n    Beta(String),"),
                  enum_for("EnumString", "    #[strum(default)]\n    Alpha(String),\n    Beta(String),")))
+    for nm_, a_, b_ in [("named_then_tuple", "Alpha { raw: String }", "Beta(String)"), ("tuple_then_named", "Alpha(String)", "Beta { raw: String }"),
+                        ("named_then_named", "Alpha { raw: String }", "Beta { other: String }")]:
+        W.append(_mk("two_defaults_" + nm_, "two default variants", "EnumString",
+                     enum_for("EnumString", "    #[strum(default)]\n    %s,\n    #[strum(default)]\n    %s," % (a_, b_)),
+                     enum_for("EnumString", "    #[strum(default)]\n    %s,\n    %s," % (a_, b_))))
+    W.append(_mk("two_defaults_apart", "two default variants", "EnumString",
+                 enum_for("EnumString", "    #[strum(default)]\n    Alpha(String),\n    Gamma,\n    #[strum(disabled)]\n    Delta,\n    #[strum(default)]\n    Beta(String),"),
+                 enum_for("EnumString", "    #[strum(default)]\n    Alpha(String),\n    Gamma,\n    #[strum(disabled)]\n    Delta,\n    Beta(String),")))
     # 8. default on a variant without exactly one field
     for d in ("EnumString", "Display", "ToString"):
         for nm, f_ in (("unit", ""), ("tuple2", "(String, String)"), ("named2", " { a: String, b: String }"), ("tuple0", "()")):
